@@ -18,9 +18,14 @@ import (
 }%%
 
 func scanTokens(data []byte, filename string, start hcl.Pos, mode scanMode) []Token {
-    stripData := stripUTF8BOM(data)
-    start.Byte += len(data) - len(stripData)
-    data = stripData
+    // A byte order mark is meaningful only at the very beginning of a file.
+    // When scanning starts elsewhere, such as inside a JSON string that is
+    // being interpreted as a template, U+FEFF is ordinary content.
+    if start.Byte == 0 {
+        stripData := stripUTF8BOM(data)
+        start.Byte += len(data) - len(stripData)
+        data = stripData
+    }
 
     f := &tokenAccum{
         Filename:  filename,
